@@ -1,0 +1,35 @@
+// SPDX-FileCopyrightText: 2026 The Pion community <https://pion.ly>
+// SPDX-License-Identifier: MIT
+
+//go:build verif
+
+// Contracts (comment-only) for property C15: the TCP mux routes accepted
+// connections by the ufrag of their first framed STUN Binding message and
+// closes everything it does not attach.
+
+package ice
+
+//@ func (*TCPMuxDefault).closeAndLogError
+//@   props C15
+//@   site call Close#1 assert closes-exactly-the-given-closer: recv == closer
+
+// handleConn owns the accepted connection: on every path it is either closed
+// exactly once or successfully attached to a packet connection.
+//@ func (*TCPMuxDefault).handleConn
+//@   props C15
+//@   requires conn != nil
+//@   ghostvar closedCount int = 0
+//@   ghostvar attached bool = false
+//@   ghostvar parts0 int = 0
+//@   loop 1 invariant still-owned: closedCount == 0 && !attached
+//@   site call readStreamingPacket#1 assert first-frame-is-read-from-this-conn: arg0 == conn && arg1 == buf
+//@   site call closeAndLogError#0 assert closes-this-conn-at-most-once: arg1.payload == conn.payload && closedCount == 0 && !attached
+//@   site call closeAndLogError#0 ghost closedCount := closedCount + 1
+//@   site call Get#1 assert only-stun-binding-reaches-the-username-lookup: msg.Type.Method == stun.MethodBinding && arg1 == stun.AttrUsername
+//@   site call Split#1 assert splits-the-username-at-the-colon: arg1 == ":"
+//@   site call Split#1 ghost parts0 := result[0]
+//@   site call getConn#1 assert routed-by-ufrag-before-colon-family-and-local-ip: arg1 == parts0 && arg1 == ufrag && arg2 == isIPv6 && arg3 == localAddr.IP
+//@   site call createConn#1 assert unknown-ufrag-gets-a-provisional-conn: arg1 == ufrag && arg2 == isIPv6 && arg3 == localAddr.IP && arg4 == true
+//@   site call AddConn#1 assert attaches-this-conn-with-its-first-frame: arg0 == packetConn && arg1 == conn && arg2.base == buf.base && len(arg2) == n && closedCount == 0
+//@   site call AddConn#1 ghost attached := result == nil
+//@   ensures closed-once-or-attached: (closedCount == 1 && !attached) || (closedCount == 0 && attached)
